@@ -21,7 +21,14 @@
 (* Scalar helpers are evaluated by ExprScalar!Expect (C11's specification).     *)
 (* The result is an expectation record of ExprScalar ([k, v, alts, ce]); ce is  *)
 (* always "*" here (only values are demanded, not compile diagnostics).         *)
-EXTENDS ExprScalar
+(*                                                                              *)
+(* Integer arguments (@range start / stop / incr, @select and @slice positions  *)
+(* and lengths, the values @for carries through sumi / subi) range over the     *)
+(* WHOLE 64-bit integer type: beyond TLC's own integers the specification       *)
+(* computes on the digits (ExprWideInt), so {@range -9223372036854775808        *)
+(* 9223372036854775807 4611686018427387904} denotes its four elements here.     *)
+(* Texts that are integers but no int64 values are outside the domain.          *)
+EXTENDS ExprScalar, ExprWideInt
 
 NULS == <<NUL>>
 ListOf(s) == IF s = <<>> THEN <<>> ELSE SplitOn(s, NUL)
@@ -108,8 +115,41 @@ SliceAlts(l, start, hasLen, cnt) ==
 RangeCount(start, stop, incr) ==
   IF incr > 0 THEN (IF stop <= start THEN 0 ELSE (stop - start + incr - 1) \div incr)
   ELSE (IF stop >= start THEN 0 ELSE (start - stop + (0 - incr) - 1) \div (0 - incr))
+RangeInts(start, stop, incr) ==
+  [k \in 1..RangeCount(start, stop, incr) |-> start + (k - 1) * incr]
 RangeL(start, stop, incr) ==
   [k \in 1..RangeCount(start, stop, incr) |-> Itoa(start + (k - 1) * incr)]
+
+\* the same on integers of any size (ExprWideInt): cur, cur + incr, ... while strictly before stop.
+\* The sums are exact - a sum that leaves the 64-bit type is simply a number not before stop (stop
+\* is an int64).  At most `fuel` elements are produced (the caller asks for one more than it accepts).
+WBefore(cur, stop, incr) == IF incr.neg THEN WLess(stop, cur) ELSE WLess(cur, stop)
+RECURSIVE RangeW(_, _, _, _)
+RangeW(cur, stop, incr, fuel) ==
+  IF fuel <= 0 \/ ~WBefore(cur, stop, incr) THEN <<>>
+  ELSE <<WText(cur)>> \o RangeW(WAdd(cur, incr), stop, incr, fuel - 1)
+
+\* positions and lengths of any size: a list has far fewer than BIGIX elements, so a position beyond
+\* +-BIGIX selects what the position +-BIGIX selects; sums are formed exactly BEFORE clamping
+BIGIX == 100000000
+SelectW(l, i) == SelectL(l, WClampInt(i, 0 - BIGIX, BIGIX))
+SliceAltsW(l, start, hasLen, cnt) ==
+  LET n  == Len(l)
+      s0 == IF start.neg THEN WAdd(WOfInt(n), start) ELSE start
+      c  == WClampInt(cnt, 0, BIGIX)
+  IN IF ~hasLen THEN <<Take(l, WClampInt(s0, 0 - BIGIX, BIGIX), 0 - 1)>>
+     ELSE IF ~s0.neg THEN <<Take(l, WClampInt(s0, 0, BIGIX), c)>>
+     ELSE LET A == Take(l, 0, c)
+              B == Take(l, 0, WClampInt(WAdd(s0, cnt), 0, BIGIX))
+          IN IF A = B THEN <<A>> ELSE <<A, B>>
+
+\* sumi / subi "from left to right" on integers of any size: specified while every intermediate
+\* result is a value of the 64-bit type
+RECURSIVE WideFold(_, _, _, _)
+WideFold(f, acc, ws, i) ==
+  IF ~WFits64(acc) THEN <<>>
+  ELSE IF i > Len(ws) THEN <<acc>>
+  ELSE WideFold(f, IF f = "sumi" THEN WAdd(acc, ws[i]) ELSE WSub(acc, ws[i]), ws, i + 1)
 
 \* {@filter arr p}: the elements whose verdict is "t", in order
 RECURSIVE KeepFrom(_, _, _)
@@ -133,8 +173,16 @@ EvalScalar(x, env) ==
       es == [i \in 1..n |-> EvalT(x.a[i], env)]
   IN IF x.f \notin Funcs \/ n = 0 THEN AnyR
      ELSE IF \E i \in 1..n : ~ArgOK(es[i], x.f, i, n) THEN AnyR
-     ELSE Star(Expect(x.f, [i \in 1..n |-> ArgV(es[i])],
-                      [i \in 1..n |-> IF IsStatic(x.a[i]) THEN "c" ELSE "d"]))
+     ELSE LET base == Star(Expect(x.f, [i \in 1..n |-> ArgV(es[i])],
+                                  [i \in 1..n |-> IF IsStatic(x.a[i]) THEN "c" ELSE "d"]))
+          IN IF base.k = "any" /\ x.f \in {"sumi", "subi"} /\ n >= 2
+                /\ \A i \in 1..n : es[i].k = "out" /\ WIsIntText(es[i].v) /\ Len(es[i].v) <= 24
+             THEN \* the scalar model stops at +-10^9; integers are 64 bits wide
+                  LET ws == [i \in 1..n |-> WOf(es[i].v)] IN
+                  IF \E i \in 1..n : ~WFits64(ws[i]) THEN AnyR
+                  ELSE LET r == WideFold(x.f, ws[1], ws, 2) IN
+                       IF r = <<>> THEN AnyR ELSE OutS(WText(r[1]))
+             ELSE base
 
 \* left fold of the reducer b over l[i..] with memo
 FoldL(b, env, memo, l, i) ==
@@ -186,7 +234,10 @@ EvalArr(x, env) ==
          ELSE LET ix == ConstArg(x.a[2], env)  a == A(1) IN
               IF ix.st = "any" THEN AnyR
               ELSE IF ix.st = "dyn" \/ IntClass(ix.v) = "no" THEN Marker
-              ELSE IF IntClass(ix.v) # "small" \/ ~IsOutE(a) THEN AnyR
+              ELSE IF ~IsOutE(a) THEN AnyR
+              ELSE IF IntClass(ix.v) # "small" THEN
+                   (LET w == WOf(ix.v) IN
+                    IF Len(ix.v) > 24 \/ ~WFits64(w) THEN AnyR ELSE OutS(SelectW(ListOf(a.v), w)))
               ELSE OutS(SelectL(ListOf(a.v), IntVal(ix.v)))
     [] f = "@slice" ->
          IF n \notin {2, 3} THEN Star(ArgN)
@@ -195,9 +246,12 @@ EvalArr(x, env) ==
                   a  == A(1)
               IN IF st.st = "any" \/ ln.st = "any" THEN AnyR
                  ELSE IF st.st = "dyn" \/ ln.st = "dyn" \/ IntClass(st.v) = "no" \/ IntClass(ln.v) = "no" THEN Marker
-                 ELSE IF IntClass(st.v) # "small" \/ IntClass(ln.v) # "small" \/ ~IsOutE(a) THEN AnyR
-                 ELSE IF n = 3 /\ IntVal(ln.v) < 0 THEN AnyR          \* a negative length: undocumented
-                 ELSE LET alts == SliceAlts(ListOf(a.v), IntVal(st.v), n = 3, IntVal(ln.v)) IN
+                 ELSE IF ~IsOutE(a) THEN AnyR
+                 ELSE IF Len(st.v) > 24 \/ Len(ln.v) > 24 \/ ~WFits64(WOf(st.v)) \/ ~WFits64(WOf(ln.v)) THEN AnyR
+                 ELSE IF n = 3 /\ WOf(ln.v).neg THEN AnyR            \* a negative length: undocumented
+                 ELSE LET alts == IF IntClass(st.v) = "small" /\ IntClass(ln.v) = "small"
+                                  THEN SliceAlts(ListOf(a.v), IntVal(st.v), n = 3, IntVal(ln.v))
+                                  ELSE SliceAltsW(ListOf(a.v), WOf(st.v), n = 3, WOf(ln.v)) IN
                       IF Len(alts) = 1 THEN OutS(Render(alts[1]))
                       ELSE Star(OneOf([i \in 1..Len(alts) |-> Render(alts[i])]))
     [] f = "@in" ->
@@ -212,7 +266,18 @@ EvalArr(x, env) ==
          ELSE LET es == [i \in 1..n |-> A(i)] IN
               IF \E i \in 1..n : ~IsOutE(es[i]) THEN AnyR
               ELSE IF \E i \in 1..n : IntClass(es[i].v) = "no" THEN Star(ErrNum)
-              ELSE IF \E i \in 1..n : IntClass(es[i].v) # "small" \/ AbsI(IntVal(es[i].v)) > RBOUND THEN AnyR
+              ELSE IF \E i \in 1..n : IntClass(es[i].v) # "small" \/ AbsI(IntVal(es[i].v)) > RBOUND THEN
+                   \* beyond the model's own integers: the same sequence, computed on the digits
+                   (IF \E i \in 1..n : Len(es[i].v) > 24 THEN AnyR
+                    ELSE LET ws == [i \in 1..n |-> WOf(es[i].v)] IN
+                         IF \E i \in 1..n : ~WFits64(ws[i]) THEN AnyR     \* no value of the integer type
+                         ELSE LET start == IF n = 1 THEN WZero ELSE ws[1]
+                                  stop  == IF n = 1 THEN ws[1] ELSE ws[2]
+                                  incr  == IF n = 3 THEN ws[3] ELSE WOne
+                              IN IF WSign(incr) = 0 THEN Marker
+                                 ELSE IF (~incr.neg /\ WLess(stop, start)) \/ (incr.neg /\ WLess(start, stop)) THEN AnyR
+                                 ELSE LET l == RangeW(start, stop, incr, MAXGEN + 1) IN
+                                      IF Len(l) > MAXGEN THEN AnyR ELSE OutS(Render(l)))
               ELSE LET start == IF n = 1 THEN 0 ELSE IntVal(es[1].v)
                        stop  == IF n = 1 THEN IntVal(es[1].v) ELSE IntVal(es[2].v)
                        incr  == IF n = 3 THEN IntVal(es[3].v) ELSE 1
